@@ -65,16 +65,140 @@ def prng_lint_ob(prog):
     return Ob("prng/lint", run, "no global / NumPy random state in sample(); no override of sample() in subclasses", f"{P}::GaussianPDF.sample", group="prng")
 
 
+KR_SYNTH = '''
+def bad_loop(key, n):
+    return [jax.random.normal(key, (n,)) for _ in range(3)]
+def bad_twice(key, n):
+    a = jax.random.normal(key, (n,))
+    b = jax.random.uniform(key, (n,))
+    return a + b
+def good(key, n):
+    keys = jax.random.split(key, 3)
+    a = [jax.random.normal(k, (n,)) for k in keys]
+    key, sub = jax.random.split(key)
+    b = jax.random.normal(sub, (n,))
+    c = jax.vmap(lambda k: jax.random.normal(k, (n,)))(keys)
+    d = [jax.random.normal(jax.random.fold_in(key, i), (n,)) for i in range(3)]
+    for i in range(3):
+        key, sub = jax.random.split(key)
+        b = b + jax.random.normal(sub, (n,))
+    return a, b, c, d
+'''
+_NOT_DRAWS = ("split", "fold_in", "PRNGKey", "key", "key_data", "wrap_key_data", "clone", "key_impl")
+
+
+def _bound_names(scope):
+    """names (re)bound on every pass through a loop / comprehension / lambda / nested function"""
+    out = set()
+    if isinstance(scope, (ast.ListComp, ast.SetComp, ast.GeneratorExp, ast.DictComp)):
+        for g in scope.generators:
+            out |= {n.id for n in ast.walk(g.target) if isinstance(n, ast.Name)}
+    elif isinstance(scope, (ast.For, ast.While)):
+        for n in ast.walk(scope):
+            if isinstance(n, ast.Name) and isinstance(n.ctx, ast.Store):
+                out.add(n.id)
+    elif isinstance(scope, (ast.Lambda, ast.FunctionDef)):
+        a = scope.args
+        out |= {x.arg for x in a.posonlyargs + a.args + a.kwonlyargs} | ({a.vararg.arg} if a.vararg else set()) | ({a.kwarg.arg} if a.kwarg else set())
+    return out
+
+
+def _key_reuse_sites(fn, is_draw, where):
+    """(a) a draw lexically inside a loop / comprehension / lambda / nested def whose key expression uses no name bound there: every pass
+    consumes the same key;  (b) two draws in one straight-line body on the same key name with no rebinding in between."""
+    bad = []
+    parents = {}
+    for n in ast.walk(fn):
+        for c in ast.iter_child_nodes(n):
+            parents[c] = n
+    draws = [n for n in ast.walk(fn) if isinstance(n, ast.Call) and is_draw(n.func) and (n.args or any(k.arg == "key" for k in n.keywords))]
+    for c in draws:
+        kexpr = c.args[0] if c.args else [k.value for k in c.keywords if k.arg == "key"][0]
+        knames = {n.id for n in ast.walk(kexpr) if isinstance(n, ast.Name)}
+        q = c
+        while q in parents and parents[q] is not fn:
+            q = parents[q]
+            if isinstance(q, (ast.ListComp, ast.SetComp, ast.GeneratorExp, ast.DictComp, ast.For, ast.While, ast.Lambda, ast.FunctionDef)):
+                if not (knames & _bound_names(q)):
+                    bad.append(f"{where}:{c.lineno}: `{ast.unparse(c)[:70]}` is evaluated once per pass of the enclosing {type(q).__name__} with the same key "
+                               f"`{ast.unparse(kexpr)}` - every pass returns the same random numbers")
+                break
+    # (b) straight-line reuse
+    seen = {}
+    for st in ast.walk(fn):
+        pass
+    order = sorted([n for n in ast.walk(fn) if isinstance(n, (ast.Call, ast.Name))], key=lambda n: (n.lineno, n.col_offset))
+    for n in order:
+        if isinstance(n, ast.Name) and isinstance(n.ctx, ast.Store):
+            seen.pop(n.id, None)
+        elif isinstance(n, ast.Call) and n in draws:
+            kexpr = n.args[0] if n.args else [k.value for k in n.keywords if k.arg == "key"][0]
+            if isinstance(kexpr, ast.Name):
+                if kexpr.id in seen and not _exclusive(seen[kexpr.id], n, parents):
+                    bad.append(f"{where}:{n.lineno}: key `{kexpr.id}` is consumed by a second draw `{ast.unparse(n)[:60]}` (first at line {seen[kexpr.id].lineno}) "
+                               "without being split - the two draws are the same / correlated random numbers")
+                seen.setdefault(kexpr.id, n)
+    return bad
+
+
+def _exclusive(a, b, parents):
+    """a and b sit in different arms of one if / else (or conditional expression): at most one of them runs"""
+    def chain(n):
+        out = []
+        while n in parents:
+            p = parents[n]
+            out.append((p, n))
+            n = p
+        return out
+    ca = {id(p): ch for p, ch in chain(a)}
+    for p, ch in chain(b):
+        if id(p) in ca and isinstance(p, ast.If):
+            arm = lambda x: "body" if any(x is y for y in p.body) else "orelse" if any(x is y for y in p.orelse) else "test"
+            if arm(ch) != arm(ca[id(p)]) and "test" not in (arm(ch), arm(ca[id(p)])):
+                return True
+        if id(p) in ca and isinstance(p, ast.IfExp):
+            if (ch is p.body and ca[id(p)] is p.orelse) or (ch is p.orelse and ca[id(p)] is p.body):
+                return True
+    return False
+
+
+def key_reuse_ob(prog):
+    def run():
+        from ..nf import Undecided
+        t = ast.parse(KR_SYNTH)
+        syn = lambda f: isinstance(f, ast.Attribute) and ast.unparse(f).startswith("jax.random.") and f.attr not in _NOT_DRAWS
+        if len(_key_reuse_sites(t.body[0], syn, "synthetic")) != 1 or len(_key_reuse_sites(t.body[1], syn, "synthetic")) != 1 or _key_reuse_sites(t.body[2], syn, "synthetic"):
+            raise Undecided("key-reuse rule: synthetic positive / negative example mismatch")
+        bad, nfun, ndraw = [], 0, 0
+        for mod, tree in prog.modules.items():
+            def is_draw(f, mod=mod):
+                r = prog.resolve_static(mod, f)
+                return bool(r and r[0] == "ext" and r[1].startswith("jax.random.") and r[1].rsplit(".", 1)[1] not in _NOT_DRAWS)
+            for fn in ast.walk(tree):
+                if isinstance(fn, ast.FunctionDef):
+                    nfun += 1
+                    ndraw += sum(1 for n in ast.walk(fn) if isinstance(n, ast.Call) and is_draw(n.func))
+                    bad += _key_reuse_sites(fn, is_draw, f"{prog.relpath(mod)}::{prog.qualname_at(mod, fn.lineno)}")
+        if ndraw < 1:
+            raise Undecided("no jax.random draw found in the library (sample() vanished?)")
+        bad = sorted(set(bad))
+        if bad:
+            raise Refuted(bad[0], bad[0].split(":")[0] + "::" + bad[0].split("::")[1].split(":")[0], bad)
+        return [], dict(functions=nfun, draws=ndraw)
+    return Ob("prng/key-reuse", run, "every PRNG key is consumed by at most one draw: no draw inside a loop / comprehension / mapped function on a key that "
+              "does not change per pass, no second draw on an unsplit key (draws must be independent)", "gaussian_toolbox/*", group="prng")
+
+
 def obligations(tier):
     prog = model.load()
     from .common import no_narrowing_ob
-    obs = [prng_lint_ob(prog), no_narrowing_ob(prog, "dtype")]
+    obs = [prng_lint_ob(prog), key_reuse_ob(prog), no_narrowing_ob(prog, "dtype")]
     for cls in ("GaussianPDF", "GaussianDiagPDF"):
         for r1 in (False, True):
             obs.append(sample_ob(cls, r1))
     return obs
 
 
-FLOORS = {"group:sample": 4, "group:prng": 1}
+FLOORS = {"group:sample": 4, "group:prng": 2}
 LEVEL = "proof"
 EXPLANATION = "Structural clause of C19: the returned array is the affine image mu + L z of the key's standard-normal stream with L = cholesky(Sigma) contracted over its column index, paired per component; deterministic in the key (single PRNG head). Statistical moments are not decided."
